@@ -14,7 +14,7 @@ import (
 // C20 — ConstantTimeCmp vs bytes.Compare; DecomposeNAF vs the definition of a
 // width-w signed-window recoding.
 
-func sign(x int) int {
+func zvSign(x int) int {
 	if x < 0 {
 		return -1
 	}
@@ -127,7 +127,7 @@ func TestVerifC20(t *testing.T) {
 					}
 					// spare capacity beyond the length as well
 					a2 := append(make([]byte, 0, len(a)+rel*3), a...)
-					cmp(a2, b, l, fmt.Sprintf("shape:len(a)=l+%d,len(b)=l+%d", min3(ea, 2), min3(eb, 2)))
+					cmp(a2, b, l, fmt.Sprintf("shape:len(a)=l+%d,len(b)=l+%d", zvMin3(ea, 2), zvMin3(eb, 2)))
 					nShape++
 				}
 			}
@@ -254,7 +254,7 @@ func TestVerifC20(t *testing.T) {
 					r.Violation("cmp-wrong:giant-l", hk.D{"l": l, "differ_at": pos, "swapped": true, "got": got, "want": 1, "panic": msg})
 				}
 				z[4096+pos] = 0
-				r.Eval(fmt.Sprintf("cmp:giant-l=2^%d+,differ-at-%s", bitlen(l)-1, map[bool]string{true: "start", false: "end"}[pos == 0]))
+				r.Eval(fmt.Sprintf("cmp:giant-l=2^%d+,differ-at-%s", zvBitlen(l)-1, map[bool]string{true: "start", false: "end"}[pos == 0]))
 			}
 			hk.Unmap(z)
 		}
@@ -504,14 +504,14 @@ func TestVerifC20(t *testing.T) {
 	r.EvalN("naf:other-containers", nOther)
 }
 
-func min3(a, b int) int {
+func zvMin3(a, b int) int {
 	if a < b {
 		return a
 	}
 	return b
 }
 
-func bitlen(v int) int {
+func zvBitlen(v int) int {
 	n := 0
 	for ; v > 0; v >>= 1 {
 		n++
